@@ -558,9 +558,9 @@ def queries(tier):
     any_cp = "every code point except '\"', CR, LF, surrogates"
     plain_cp = any_cp + " and except ';', VT, FF, FS, GS, RS, NEL, LS, PS (reported defects)"
     # dedicated queries of the reported defects (smallest shape, full alphabet of the property)
-    add("semicolon/header", make_header(1, True, lambda o: legal(o) and not line_end(o)),
-        "parse_header on Content-Disposition with name and file name of length <= 1, %s, line ends of splitlines "
-        "excluded" % any_cp, 100, ["full-length"], "defect")
+    add("semicolon/header", make_header(1, True, legal),
+        "parse_header on Content-Disposition with name and file name of length <= 1, %s" % any_cp, 100, ["full-length"],
+        "defect")
     add("linebreak/read-name", make_read_string(b"b", "name", 1, lambda o: legal(o) and o != 59),
         "FieldStorage.iter_items on a 4-part body, the name of parts 2 and 3 = one symbolic character, %s, ';' excluded"
         % any_cp, 200, ["full-length"], "defect")
@@ -633,7 +633,7 @@ def queries(tier):
                 ("FT", 1, "chunked", "budget"), ("TFT", 2, "cl", "budget"),
                 ("TTT", None, "cl", "body"), ("FFF", None, "chunked", "body"),
                 ("TF", None, "cl", "all"), ("FT", None, "chunked", "all")]:
-            wsgi(kinds, hot, framing, window, 2, 1, 2, 200)
+            wsgi(kinds, hot, framing, window, 2, 2 if len(kinds) == 1 else 1, 2, 250)
     else:
         for kinds, hot in [("", None), ("T", 0), ("F", 0)]:
             for framing in ("cl", "chunked"):
@@ -653,5 +653,17 @@ def queries(tier):
 
 
 def selftest(tier):
+    """stub fidelity (PyPattern against re) + native regression inputs of each family"""
     stubs_c07.validate()
-    return []
+    zero = {"i1": 1, "i2": 0, "i3": 0, "v": "", "d": b"", "dt": 0, "cut": 0}
+    cases = {
+        "header/name/": {"name": "=\\", "fname": ""},
+        "header/file/": {"name": " é", "fname": "= "},
+        "header/ctype": {"sub": "X-", "with_param": True},
+        "read/b/name/": {"s": "é"}, "read/b/filename/": {"s": "\\"}, "read/b/value/": {"s": "\u20ac"},
+        "data/b/tail": {"d": b"-\r", "pad": 2}, "data/--/tail": {"d": b"--", "pad": 0},
+        "proxy/loop/pad3": {"k": 4}, "proxy/seek/pad3": {"start": 2, "pos": -1, "whence": 2, "sz": 5},
+        "wsgi/T/hot0/cl/budget": dict(zero, v="\u00fc"), "wsgi/F/hot0/chunked/budget": dict(zero, d=b"-", cut=2),
+        "wsgi/TFT/hot2/cl/budget": dict(zero, i3=1, v="x"),
+    }
+    return [(q.qid, args, "ok") for q in queries(tier) for prefix, args in cases.items() if q.qid.startswith(prefix)]
